@@ -216,6 +216,19 @@ class C13:
                     and recv[1][2][:1] == (lab,):
                 dd = recv[1][1][1]
                 okapp = True
+            elif recv[0] == "attr" and recv[2] == "sound_events" and recv[1][0] == "ite":
+                # get-or-create: seq = table.get(label); if seq is None: seq = table[label] = Sequence()
+                obj = recv[1]
+                c, new, old = obj[1], obj[2], obj[3]
+                if c[0] == "cmp" and c[1] == "is" and c[3] == NONE and c[2] == old and old[0] == "call" and old[1][0] == "attr" \
+                        and old[1][2] == "get" and old[2] in ((lab,), (lab, NONE)):
+                    table = old[1][1]
+                    sts = [e_ for e_ in s.of("store") if e_.term[1] == ("sub", table, lab) and e_.term[2] == new and c in conjuncts(e_.live)
+                           and L.id in e_.loops]
+                    if len(sts) == 1 and new[0] == "call" and new[1] == ("global", "soundevent.data.sequences:Sequence", "class") \
+                            and not new[2] and not new[3]:
+                        dd = table
+                        okapp = True
         if okapp:
             ctx.ok("R13.3", f"{self.file}:{apps[0].lineno} group_sound_events", "one unconditional append per event into the sequence of its label")
         else:
